@@ -101,7 +101,7 @@ def coq_build(timeout=1500):
         rc, tlog = sh([PY, tr], timeout=300, cwd=ROOT, env={'PYTHONPATH': REPO})
     write_coqproject()
     cmd = ('flock %s/.buildlock sh -c "coq_makefile -f _CoqProject -o Makefile >/dev/null 2>&1 && '
-           'make -k -j%d 2>&1"' % (WORK, NPROC))
+           'make -k -j%d COQC=\'timeout 600 coqc\' 2>&1"' % (WORK, NPROC))
     rc, out = sh(cmd, timeout=timeout, cwd=COQ)
     failed = []
     for f in coq_files():
